@@ -54,19 +54,20 @@ PROFILE_NAMES = sorted(PROFILES)
 ATTR_NAMES = ["id", "class", "a", "b", "title", "type", "encoding", "color", "face", "size", "xlink:href", "xml:lang",
               "xmlns", "xmlns:xlink", "definitionurl", "viewbox", "A", "href", "src", "style", "action", "prompt", "name",
               "xml:base", "xlink:title", "charset", "http-equiv", "content", "checked", "é", "a\"", "<", "a'b", "=x", "0"]
-ATTR_VALUES = ["", "1", "x", "hidden", "HIDDEN", "text/html", "TEXT/HTML", "application/xhtml+xml", "a b", "&amp;", "&amp",
+ATTR_VALUES = ["&amp;lt;", "&amp;#60;x", "&amp;amp", "a&amp;b;", "", "1", "x", "hidden", "HIDDEN", "text/html", "TEXT/HTML", "application/xhtml+xml", "a b", "&amp;", "&amp",
                "&lt", "a>b", "a<b", "'", "\"", "`", "=", "\x00", "é", "\U0001F600", "javascript:alert(1)", "x\ny",
                "&#x41;", "&notit;", "utf-8", "text/html; charset=utf-8", "content-type", "</p>", "-->", "\ud83d"]
 
 
-TEXT_ATOMS = ["a", "b", "x", "y", "1", " ", " ", "\n", "\t", "\f", "\r", "\r\n", "\x00", "&amp;", "&lt", "&#x41;", "&", "&#0;",
+TEXT_ATOMS = ["&amp;lt;", "&amp;#60;", "&amp;amp;", "a", "b", "x", "y", "1", " ", " ", "\n", "\t", "\f", "\r", "\r\n", "\x00", "&amp;", "&lt", "&#x41;", "&", "&#0;",
               "&notit;", "<", ">", "\U0001F600", "\ud800", "\udc00", "\x01", "\ufffe", "é", "ab cd", "  ", "]]>", "--", "=", "\"", "'",
               "&#xD800;", "&#x80;", "\x7f", " ", "/", "!"]
 
 COMMENTS = ["<!--c-->", "<!---->", "<!-->", "<!--->", "<!--a--!>", "<!-- -- -->", "<!--a--", "<!--", "<!x>", "<!>", "<?pi?>", "<?",
             "</ x>", "</>", "<!--<!---->", "<!--a-b--c--->", "<!--\x00-->", "<!---\x00-->", "<!--a\r\nb-->", "<!-- <p> -->",
             "<!--[if x]>", "<![endif]-->", "<!-"]
-DOCTYPES = ["<!DOCTYPE html>", "<!doctype html>", "<!DOCTYPE>", "<!DOCTYPE html PUBLIC \"-//W3C//DTD HTML 4.01//EN\">",
+DOCTYPES = ["<!DOCTYPE x SYSTEM \"a\">", "<!DOCTYPE html SYSTEM '\"a'>", "<!DOCTYPE html SYSTEM 'a\"b'>", "<!DOCTYPE html PUBLIC \"p\" 'a\"b'>", "<!DOCTYPE html PUBLIC 'a\"b'>", "<!DOCTYPE html SYSTEM \"a'b\">",
+            "<!DOCTYPE html>", "<!doctype html>", "<!DOCTYPE>", "<!DOCTYPE html PUBLIC \"-//W3C//DTD HTML 4.01//EN\">",
             "<!DOCTYPE html PUBLIC \"-//W3C//DTD HTML 4.01 Transitional//EN\">",
             "<!DOCTYPE html PUBLIC \"-//W3C//DTD HTML 4.01 Transitional//EN\" \"http://www.w3.org/TR/html4/loose.dtd\">",
             "<!DOCTYPE html PUBLIC \"-//W3C//DTD XHTML 1.0 Transitional//EN\" \"x\">",
